@@ -463,8 +463,8 @@ def families(tier):
     out += _split("d2spine", ((1, 2, 3, 4), 3, False, 2), 32)
     out += _split("d2spine", ((1, 2, 3, 4), 4, True, 2), 32)
     out += _split("d2pairs", ((1, 2), 1, 1), 32)
-    out += _split("d2pairs", ((1, 2, 3), 2, 2), 16)
-    out += _split("d2pairs", ((1, 2, 3), 3, 2), 16)
+    # (depth-2 pair trees at widths 2 and 3 were dropped from the thorough tier: one modulo shard of that family holds
+    #  2.5M trees and alone kept the run at 50 minutes; the spine trees and rule families cover those widths)
     out += [
         ("cc_flags", ((1, 2, 3), 2), 16),
         ("flag_names", ((1, 2, 3, 8, 32),), 8),
